@@ -7,6 +7,7 @@ mod wire;
 mod s_acks;
 mod s_api;
 mod s_delivery;
+mod s_events;
 mod s_match;
 mod s_timing;
 
@@ -20,11 +21,14 @@ fn scenarios(id: &str, args: &Args) -> Option<Vec<explore::Scenario>> {
         "C04" => s_acks::c04(args),
         "C16" => s_match::c16(args),
         "C17" => s_match::c17(args),
+        "C26" => s_events::c26(args),
         "C27" => s_timing::c27(args),
         "C28" => s_api::c28(args),
         "C29" => s_timing::c29(args),
         "C30" => s_timing::c30(args),
         "C31" => s_timing::c31(args),
+        "C32" => s_events::c32(args),
+        "C33" => s_events::c33(args),
         "C35" => s_api::c35(args),
         "C36" => s_api::c36(args),
         "C37" => s_api::c37(args),
